@@ -1,4 +1,5 @@
-(** * Feat/FeaturesExe.v — C13 and C01's executor model (coq/Exe, imported read-only).
+(** * Feat/FeaturesExe.v — C13 and C01's executor model (coq/ExeA: the tied model, field arguments
+    through C05's coercion; imported read-only).
 
     C01's model has no feature parameter: its schema has no requirement sets, [get_field] is a
     plain lookup and [impls_of] lists every implementation.  What the real executor does with a
@@ -8,54 +9,97 @@
 
         view S F  :=  the types the request may see, each with the fields it may see, the
                       interfaces it may see among those it implements, the members it may see;
-                      the root operation types it may see.
+                      the root operation types it may see;
+                      [s_argdefs]: the argument definitions of the visible fields of the visible
+                      object types (erasure deletes a gated field together with its arguments and
+                      leaves the arguments of a surviving field alone);
+                      [s_inputs]: the input types — scalars, enums, input objects — the request may
+                      see (erasure deletes a gated input type from the registry and leaves the others,
+                      with all their fields, alone; the construction rules make every argument type
+                      of a visible field visible);
+                      [s_dt]: untouched.
 
-    (C13's own schema type has no result-coercion data; [leaf] supplies the C01 representation of
-    scalars and enums and is arbitrary: erasure does not touch them.)
+    C13's own schema type has no result-coercion data, default values, coercion hooks or DateTime
+    oracle; the parameters [leaf], [inp], [adefs], [dt] supply C01's / C05's representation of
+    scalars and enums, of the input types, of a field's argument definitions and the DateTime
+    table.  They are arbitrary functions of the (name, definition) they describe: erasure does not
+    touch those definitions.
 
     [view_erase]: for [schema_ok S] and F ⊆ G the F-view of S IS the G-view of the erased schema —
     as C01 schemas, literally equal.  Hence every function of C01's model, in particular the whole
-    request pipeline [run_request], returns the same on both ([exe_view_run_request]): result data,
-    errors with paths and locations, out-of-fuel and all.
-    What this does not establish: that the real executor on (S, F) behaves as C01's model on
-    [view S F].  C01's correspondence check runs without feature sets; the tie for feature gating
-    is C13's own (chains, selection sets, subscriptions against [cexec] / [sexec] / [ssub_prog]). *)
+    request pipeline [run_request] (operation selection, variable coercion, execution), returns the
+    same on both ([exe_view_run_request]).
+    That the real executor on (S, F) behaves as C01's model on [view S F] is tied by C13's own
+    check: its selection-set documents are also run through [ArgModel.run_request] on the F-view
+    ([FeaturesCheck], request kind sdoc). *)
 From Coq Require Import List NArith Bool.
 From ApiFu Require Import Base.Sexp Feat.FeaturesModel Feat.FeaturesSpec Feat.FeaturesProofs.
-From ApiFu Require Exe.ExecData Exe.ExecModel.
+From ApiFu Require Val.Values ExeA.ArgData ExeA.ArgModel.
 Import ListNotations.
 Open Scope list_scope.
 
-Fixpoint vsty (t : sty) : ExecData.sty :=
+Fixpoint vsty (t : sty) : ArgData.sty :=
   match t with
-  | StNamed n => ExecData.StNamed n
-  | StList x => ExecData.StList (vsty x)
-  | StNonNull x => ExecData.StNonNull (vsty x)
+  | StNamed n => ArgData.StNamed n
+  | StList x => ArgData.StList (vsty x)
+  | StNonNull x => ArgData.StNonNull (vsty x)
   end.
 
-Section View.
-  (** how a scalar or an enum of C13's schema is presented to C01 (any function will do) *)
-  Variable leaf : name -> named_type -> ExecData.named_type.
+Fixpoint vsty_in (t : sty) : Values.sty :=
+  match t with
+  | StNamed n => Values.StNamed n
+  | StList x => Values.StList (vsty_in x)
+  | StNonNull x => Values.StNonNull (vsty_in x)
+  end.
 
-  Definition vfields (F : features) (fs : list (name * field_def)) : list (name * ExecData.sty) :=
+Lemma flat_map_map {A B C} (f : B -> list C) (g : A -> B) l : flat_map f (map g l) = flat_map (fun x => f (g x)) l.
+Proof. induction l as [|x r IH]; simpl; [reflexivity | rewrite IH; reflexivity]. Qed.
+
+Section View.
+  (** how a scalar or an enum of C13's schema is presented to C01 on the output side *)
+  Variable leaf : name -> named_type -> ArgData.named_type.
+  (** ... how a scalar, enum or input object is presented to C05's input coercion *)
+  Variable inp : name -> named_type -> option Values.tdef.
+  (** ... the argument definitions of a field (object type, field name, C13's argument list) *)
+  Variable adefs : name -> name -> list (name * sty) -> ArgData.argdefs.
+  Variable dt : list (bytes * option bytes).
+
+  Definition vfields (F : features) (fs : list (name * field_def)) : list (name * ArgData.sty) :=
     map (fun nf => (fst nf, vsty (f_type (snd nf)))) (filter (fun nf => subset (f_req (snd nf)) F) fs).
 
-  Definition vtype (alive : name -> bool) (F : features) (n : name) (t : named_type) : ExecData.named_type :=
+  Definition vtype (alive : name -> bool) (F : features) (n : name) (t : named_type) : ArgData.named_type :=
     match t with
-    | NObject fs ifs _ => ExecData.NObject (vfields F fs) (filter alive ifs)
-    | NInterface fs _ => ExecData.NInterface (vfields F fs)
-    | NUnion ms _ => ExecData.NUnion (filter alive ms)
-    | NInput _ _ => ExecData.NInput
+    | NObject fs ifs _ => ArgData.NObject (vfields F fs) (filter alive ifs)
+    | NInterface fs _ => ArgData.NInterface (vfields F fs)
+    | NUnion ms _ => ArgData.NUnion (filter alive ms)
+    | NInput _ _ => ArgData.NInput
     | _ => leaf n t
     end.
 
-  Definition view (S : schema) (F : features) : ExecData.schema :=
+  Definition vinput (nt : name * named_type) : list (name * Values.tdef) :=
+    match snd nt with
+    | NScalar _ | NEnum _ _ | NInput _ _ => match inp (fst nt) (snd nt) with Some d => [(fst nt, d)] | None => [] end
+    | _ => []
+    end.
+
+  Definition vargs (F : features) (nt : name * named_type) : list (name * list (name * ArgData.argdefs)) :=
+    match snd nt with
+    | NObject fs _ _ =>
+        [(fst nt, map (fun nf => (fst nf, adefs (fst nt) (fst nf) (f_args (snd nf))))
+                      (filter (fun nf => subset (f_req (snd nf)) F) fs))]
+    | _ => []
+    end.
+
+  Definition view (S : schema) (F : features) : ArgData.schema :=
     let alive := visible S F in
-    {| ExecData.types := map (fun nt => (fst nt, vtype alive F (fst nt) (snd nt)))
-                             (filter (fun nt => subset (type_req (snd nt)) F) (types S));
-       ExecData.query := query S;
-       ExecData.mutation := erase_root alive (mutation S);
-       ExecData.subscription := erase_root alive (subscription S) |}.
+    let seen := filter (fun nt => subset (type_req (snd nt)) F) (types S) in
+    {| ArgData.types := map (fun nt => (fst nt, vtype alive F (fst nt) (snd nt))) seen;
+       ArgData.query := query S;
+       ArgData.mutation := erase_root alive (mutation S);
+       ArgData.subscription := erase_root alive (subscription S);
+       ArgData.s_inputs := flat_map vinput seen;
+       ArgData.s_dt := dt;
+       ArgData.s_argdefs := flat_map (vargs F) seen |}.
 
   Section Eq.
     Variable S : schema.
@@ -93,21 +137,39 @@ Section View.
       cbn [erase_root]. rewrite alive_E, V. reflexivity.
     Qed.
 
+    Lemma seen_E :
+      filter (fun nt => subset (type_req (snd nt)) G) (types E)
+      = map (fun nt => (fst nt, erase_type alive F (snd nt))) (filter (fun nt => subset (type_req (snd nt)) F) (types S)).
+    Proof.
+      unfold erase at 1. cbn [types]. rewrite filter_map.
+      rewrite (filter_all (fun x : name * named_type => subset (type_req (snd (fst x, erase_type alive F (snd x)))) G)); [reflexivity|].
+      intros nt Hnt. apply filter_In in Hnt as [_ V]. cbn [snd]. rewrite type_req_erase. eapply subset_trans; eauto.
+    Qed.
+
+    Lemma vinput_E nt : vinput (fst nt, erase_type alive F (snd nt)) = vinput nt.
+    Proof. destruct nt as [n t]. destruct t; reflexivity. Qed.
+
+    Lemma vargs_E nt : vargs G (fst nt, erase_type alive F (snd nt)) = vargs F nt.
+    Proof.
+      destruct nt as [n t]. destruct t as [r | vals r | fs r | fs ifs r | fs r | ms r]; try reflexivity.
+      unfold vargs. cbn [fst snd erase_type]. unfold erase_fields. rewrite filter_filter. do 3 f_equal.
+      apply filter_ext. intro nf. destruct (subset (f_req (snd nf)) F) eqn:V; [|reflexivity]. simpl. eapply subset_trans; eauto.
+    Qed.
+
     (** the F-view of S is the G-view of the erased schema *)
     Theorem view_erase : view E G = view S F.
     Proof.
-      unfold view. f_equal.
-      - unfold erase at 2. cbn [types]. rewrite filter_map.
-        rewrite (filter_all (fun x : name * named_type => subset (type_req (snd (fst x, erase_type alive F (snd x)))) G)).
-        + rewrite map_map. apply map_ext. intros [n t]. cbn [fst snd]. rewrite vtype_E. reflexivity.
-        + intros nt Hnt. apply filter_In in Hnt as [_ V]. cbn [snd]. rewrite type_req_erase. eapply subset_trans; eauto.
+      unfold view. cbv zeta. rewrite seen_E. f_equal.
+      - rewrite map_map. apply map_ext. intros [n t]. cbn [fst snd]. rewrite vtype_E. reflexivity.
       - unfold erase. cbn [mutation]. apply erase_root_E.
       - unfold erase. cbn [subscription]. apply erase_root_E.
+      - rewrite flat_map_map. apply flat_map_ext. intro nt. apply vinput_E.
+      - rewrite flat_map_map. apply flat_map_ext. intro nt. apply vargs_E.
     Qed.
 
     (** hence C01's executor — the whole request pipeline — cannot tell them apart *)
-    Theorem exe_view_run_request M R opname En fuel W :
-      ExecModel.run_request M (view E G) R opname En fuel W = ExecModel.run_request M (view S F) R opname En fuel W.
+    Theorem exe_view_run_request M R opname raw fuel W :
+      ArgModel.run_request M (view E G) R opname raw fuel W = ArgModel.run_request M (view S F) R opname raw fuel W.
     Proof. rewrite view_erase. reflexivity. Qed.
   End Eq.
 End View.
